@@ -40,7 +40,7 @@ def random_streams(rnd, n):
                 cells = ["none", "none"]
             st.append({
                 "qname": rnd.choice(names), "rg": rnd.choice(["a1", "a2", "b1"]), "flags": flags,
-                "mapq": rnd.choice([0, 19, 20, 29, 30, 60, 60]), "cells": cells,
+                "mapq": rnd.choice([0, 19, 20, 29, 30, 60, 60, 255]), "cells": cells,
                 "refok": [rnd.random() > 0.05 for _ in range(2)],
                 "overlap": True if any(c != "none" for c in cells) else rnd.random() < 0.6,
             })
@@ -211,6 +211,10 @@ def main():
     for i in range(nrand):
         rtasks.append({"op": "record_random", "wd": data_wd, "chunk": i, "seed": ck.seed, "tid0": 100000 + 1000 * i,
                        "n": 8, "alns": 30, "cfgs": 3, "wrong_md": 0.02})
+    # loci with more SNVs than fit a signed byte (the model's sites sit among 130-170 listed SNVs), long reads
+    for i in range(2 if quick else 8):
+        rtasks.append({"op": "record_random", "wd": data_wd, "chunk": 500 + i, "seed": ck.seed, "tid0": 500000 + 1000 * i,
+                       "n": 2, "alns": 40, "cfgs": 2, "wrong_md": 0.0, "n_sites": [130, 170], "spacing": [1, 3], "length": [40, 160]})
     rres = pool.map_tasks("impl.c06", rtasks, mode="jit")
     traces = []
     for t, rr in zip(rtasks, rres):
